@@ -3,6 +3,7 @@ package h
 import (
 	"bytes"
 	"context"
+	"errors"
 	"crypto/sha256"
 	"encoding/hex"
 	"fmt"
@@ -104,9 +105,15 @@ func (c CLI) Run() Result {
 	}
 	cmd.SysProcAttr = &syscall.SysProcAttr{Setpgid: true}
 	cmd.Cancel = func() error { return syscall.Kill(-cmd.Process.Pid, syscall.SIGKILL) }
-	cmd.WaitDelay = 2 * time.Second
+	// WaitDelay only bounds the wait for orphaned grandchildren that keep the pipes open. It must be
+	// generous: on a loaded machine the goroutines copying the pipes can be starved for seconds, and a
+	// short delay would cut the captured output off (seen as exit 0 with empty stdout/stderr).
+	cmd.WaitDelay = 60 * time.Second
 	err := cmd.Run()
 	r := Result{Stdout: so.String(), Stderr: se.String()}
+	if errors.Is(err, exec.ErrWaitDelay) {
+		r.TimedOut = true // output may be incomplete: inconclusive, never a verdict
+	}
 	if cmd.ProcessState != nil {
 		r.CPU = cmd.ProcessState.UserTime() + cmd.ProcessState.SystemTime()
 		r.Exit = cmd.ProcessState.ExitCode()
